@@ -46,6 +46,11 @@ func (g *G) genC07(p *Plan) {
 		allKeys = append(allKeys, KeyRef{Key: k})
 	}
 	big := g.chance(0.35)
+	// some runs delete and re-create the (momentarily empty) bucket under the other clients
+	recycler := -1
+	if c.Buckets != nil && !c.Versioned && nup == 0 && c.Backend != "singlefs" && g.chance(0.3) {
+		recycler = g.rng.Intn(nclients)
+	}
 	for ci := 0; ci < nclients; ci++ {
 		role := g.pick("plain", "plain", "slow-uploader", "slow-reader", "retrier")
 		var ops []Op
@@ -105,6 +110,11 @@ func (g *G) genC07(p *Plan) {
 				} else {
 					op = Op{K: "get", B: b, Key: key()}
 				}
+			}
+			if ci == recycler && g.chance(0.35) {
+				op = Op{K: "recycle", B: b, Keys: allKeys}
+			} else if recycler >= 0 && g.chance(0.25) {
+				op = Op{K: "del", B: b, Key: key()} // keep the bucket empty often enough
 			}
 			ops = append(ops, op)
 			if role == "retrier" && op.K == "put" && g.chance(0.5) {
